@@ -139,14 +139,30 @@ func (f *Frame) lockOp(mu ssa.Value, lock bool, reach string, st *State, pos tok
 		if f.top.lockSnaps == nil {
 			f.top.lockSnaps = map[string]*State{}
 		}
-		f.top.lockSnaps[gd.Key] = st.clone()
-		f.top.lastLockSnap = f.top.lockSnaps[gd.Key]
+		snapSt := st.clone()
+		snapSt.snaps = nil
+		f.top.lockSnaps[gd.Key] = snapSt
+		f.top.lastLockSnap = snapSt
+		if st.snaps == nil {
+			st.snaps = map[string]*State{}
+		} else {
+			cp := make(map[string]*State, len(st.snaps)+2)
+			for k, v := range st.snaps {
+				cp[k] = v
+			}
+			st.snaps = cp
+		}
+		st.snaps[gd.Key] = snapSt
+		st.snaps["#last"] = snapSt
 		f.top.lastLockReach = reach
 		f.top.csCount[gd.Key]++
 		return
 	}
 	// unlock
-	snap := f.top.lockSnaps[gd.Key]
+	snap := st.snaps[gd.Key] // the Lock that this path took
+	if snap == nil {
+		snap = f.top.lockSnaps[gd.Key]
+	}
 	if snap == nil {
 		snap = f.entry
 	}
@@ -158,23 +174,47 @@ func (f *Frame) lockOp(mu ssa.Value, lock bool, reach string, st *State, pos tok
 		}
 		f.oblig("lockinv", pos, fmt.Sprintf("%s.%s: %s", gd.Type, gd.Mu, inv.Text), reach, g)
 	}
-	if f == f.top && f.contract != nil {
-		for _, cs := range f.contract.CS {
+	// the function's `cs` clauses also bind sections executed inline by closures of the function
+	// (deferred cleanup closures in particular: `cs T.mu#defer ensures ...`); they are evaluated in
+	// the function's own scope at the point where the closure runs
+	top := f.top
+	inClosure, inDefer := false, false
+	if f != top {
+		for p := f.fn.Parent(); p != nil; p = p.Parent() {
+			if p == top.fn {
+				inClosure = true
+			}
+		}
+		for fr := f; fr != nil && fr != top; fr = fr.parent {
+			if fr.fromDefer {
+				inDefer = true
+			}
+		}
+	}
+	if (f == top || inClosure) && top.contract != nil {
+		for _, cs := range top.contract.CS {
 			if cs.Mutex != gd.Type+"."+gd.Mu {
 				continue
 			}
-			if cs.Ordinal != 0 && cs.Ordinal != f.top.csCount[gd.Key] {
+			if cs.Ordinal == -1 && !inDefer {
 				continue
 			}
-			cenv := f.funcEnv(st, snap)
+			if cs.Ordinal > 0 && (inDefer || cs.Ordinal != f.top.csCount[gd.Key]) {
+				continue
+			}
+			cenv := top.funcEnv(st, snap)
 			cenv.vars["self"] = cenv.sv(owner, types.NewPointer(elemT))
-			if blk := f.curBlock; blk != nil {
-				f.bindLocals(cenv, blk, st)
-				f.bindBlockLocals(cenv, blk, st)
+			if blk := top.curBlock; blk != nil {
+				top.bindLocals(cenv, blk, st)
+				top.bindBlockLocals(cenv, blk, st)
 			}
 			g, err := cenv.evalGoal(cs.E)
 			if err != nil {
-				f.bail("cs %s ensures %q: %v", cs.Mutex, cs.Text, err)
+				where := ""
+				if top.curBlock != nil {
+					where = fmt.Sprintf(" (in block %d %s of %s)", top.curBlock.Index, top.curBlock.Comment, top.fn.Name())
+				}
+				f.bail("cs %s ensures %q: %v%s", cs.Mutex, cs.Text, err, where)
 			}
 			f.oblig("cs", pos, fmt.Sprintf("%s section %d: %s", cs.Mutex, f.top.csCount[gd.Key], cs.Text), reach, g)
 		}
